@@ -85,6 +85,10 @@ type ProdFocus struct {
 	// Headers are cleared, as a pooling application would): buffered-byte accounting
 	// must not depend on the record's contents after the promise has run.
 	MutateInPromise bool
+	// Burst packs blocking producers together: mostly Produce steps started at the same
+	// virtual instant (each on its own goroutine), so that many producers are parked on a
+	// full buffer and are woken together.
+	Burst bool
 }
 
 func GenProdPlan(t *rapid.T, f ProdFocus) ProdPlan {
@@ -145,11 +149,19 @@ func GenProdPlan(t *rapid.T, f ProdFocus) ProdPlan {
 		}
 	}
 	delays := []time.Duration{0, 0, 0, time.Millisecond, 10 * time.Millisecond, 50 * time.Millisecond, 300 * time.Millisecond, 3 * time.Second}
+	if f.Burst {
+		kinds = append(kinds, "produce", "produce", "produce", "produce", "produce", "produce", "produce", "produce")
+		delays = []time.Duration{0, 0, 0, 0, 0, 0, time.Millisecond, 50 * time.Millisecond}
+	}
 	for i := 0; i < ns; i++ {
 		s := ProdStep{Delay: rapid.SampledFrom(delays).Draw(t, "delay"), Kind: rapid.SampledFrom(kinds).Draw(t, "kind")}
 		switch s.Kind {
 		case "produce":
-			s.Mode = rapid.SampledFrom([]string{"produce", "produce", "try", "sync"}).Draw(t, "mode")
+			modes := []string{"produce", "produce", "try", "sync"}
+			if f.Burst {
+				modes = []string{"produce", "produce", "produce", "sync"}
+			}
+			s.Mode = rapid.SampledFrom(modes).Draw(t, "mode")
 			s.N = rapid.IntRange(1, 6).Draw(t, "n")
 			s.Topic = rapid.IntRange(0, nt).Draw(t, "topic") // nt = unknown topic
 			if s.Topic == nt && rapid.IntRange(0, 2).Draw(t, "unknownrare") != 0 {
